@@ -150,11 +150,22 @@ def _diff_attrs(where, exp, obs, out):
                 out.append(("value", f"{where}: attribute {name!r} value {e} -> {o}"))
 
 
+def norm_value(t):
+    """numpy-scalar inputs (["n", dtype, v]) denote the Python value of the same kind"""
+    return enc(dec(t)) if t[0] == "n" else t
+
+
+def norm_graph(G):
+    return {"directed": G["directed"],
+            "nodes": [[i, {k: norm_value(v) for k, v in a.items()}] for i, a in G["nodes"]],
+            "edges": [[list(e), {k: norm_value(v) for k, v in a.items()}] for e, a in G["edges"]]}
+
+
 def diff_graphs(exp, obs):
     """SPECIFICATION (property C03): `obs` must be the attribute graph `exp` — same ids, same edges
     (unordered when undirected), same directedness, per element the same set of present attributes
     with equal value and kind.  Returns the list of (class, text) differences; [] = conforms."""
-    e, o = canon(exp), canon(obs)
+    e, o = canon(norm_graph(exp)), canon(obs)
     out = []
     if e["directed"] != o["directed"]:
         out.append(("directedness", f"directed {e['directed']} -> {o['directed']}"))
@@ -614,6 +625,18 @@ def gen_values(rng, kind, k):
     """k tagged values of one property of kind `kind` (all of one kind: the documented domain)"""
     if kind in ("bool", "int", "bigint", "float", "str"):
         return [leaf(rng, kind) for _ in range(k)]
+    if kind == "npscalar":  # numpy scalars: same five kinds, other dtypes (oracle only: the model has Python scalars)
+        dt = rng.choice(["int16", "uint8", "int64", "uint64", "float32", "float64", "bool"])
+        out = []
+        for _ in range(k):
+            if dt == "bool":
+                out.append(["n", dt, ["b", rng.random() < 0.5]])
+            elif dt.startswith("float"):
+                out.append(["n", dt, ["f", f2h(np.dtype(dt).type(rng.choice(FINITE + [float("nan"), float("inf")])))]])
+            else:
+                info = np.iinfo(np.dtype(dt))
+                out.append(["n", dt, ["i", str(rng.choice([info.min, info.max, 0, 1, 7]))]])
+        return out
     if kind == "mixint":  # non-negative ints on both sides of 2^63 (D21)
         vals = [["i", str(rng.choice(BIG_INTS))], ["i", str(rng.choice([0, 5, 2 ** 62]))]]
         vals += [["i", str(rng.choice(BIG_INTS + [3, 0]))] for _ in range(k)]
@@ -1215,8 +1238,14 @@ def roundtrip_cases(rng, items, both_formats, exhaustive_rx=False):
     return cases
 
 
+def _has_np(G):
+    return any(v[0] == "n" for _, a in list(G["nodes"]) + list(G["edges"]) for v in a.values())
+
+
 def roundtrip_request(c):
     G = c["G"]
+    if _has_np(G):
+        return {"op": "nomodel"}
     req = {"axes": c["axes"]} if c.get("axes") else {}
     if c["writer"] == "nx":
         try:
@@ -1255,6 +1284,9 @@ def do_roundtrips(ck, drv, cases, stats):
                 stats["pairs_agree"] += sum(1 for a, b in itertools.combinations(obs, 2) if _same(a, b))
         # ---- model
         if mo is None:
+            continue
+        if _has_np(G):
+            stats["model_skipped_numpy_scalars"] += 1
             continue
         if "err" in mo:
             ck.corr_broken("C03:driver", c, None, mo)
@@ -1413,10 +1445,14 @@ def run(ck: common.Check):
     items += gen_exhaustive(rng)
     nrand = 400 if ck.quick else 6000
     items += [gen_random_graph(rng) for _ in range(nrand)]
+    items += [gen_random_graph(rng, nmax=8, kinds=[*KINDS, "npscalar", "npscalar", "npscalar"]) for _ in range(nrand // 4)]
     items += sg_cross_items(rng, 24 if ck.quick else 200)
     items += [gen_malformed(rng) for _ in range(60 if ck.quick else 600)]
     cases = roundtrip_cases(rng, items, both_formats=not ck.quick)
+    phase = {}
+    t1 = __import__("time").time()
     do_roundtrips(ck, drv, cases, stats)
+    phase["roundtrips"] = round(__import__("time").time() - t1, 1)
     ck.extra["exhaustive"] = "<=3 nodes / <=3 edges x presence subsets x 10 kinds x 4 id sets (the enumerated sub-space only)"
 
     # ---- B: construct from one in-memory geff through every backend
@@ -1425,19 +1461,26 @@ def run(ck: common.Check):
     cm += [{"stream": "construct", "M": gen_mem(rng, sg_domain=True), "backends": ["nx", "rx", "sg"]} for _ in range(nmem // 8)]
     cm += [{"stream": "construct", "M": gen_mem(rng, valid=False), "backends": ["nx", "rx"]} for _ in range(nmem // 8)]
     cm += [{"stream": "construct", "M": c["M"], "backends": c.get("backends", ["nx", "rx"])} for c in corpus() if "M" in c]
+    t1 = __import__("time").time()
     do_constructs(ck, drv, cm, stats)
+    phase["constructs"] = round(__import__("time").time() - t1, 1)
 
     # ---- C: spatial-graph writer
     nsg = 100 if ck.quick else 1000
     cs = [{"stream": "sg", "S": gen_sg(rng, SG_SCHEMAS[k % len(SG_SCHEMAS)]), "fmt": 2 + (k // len(SG_SCHEMAS)) % 2} for k in range(nsg)]
     cs += [{"stream": "sg", "S": c["S"], "fmt": c.get("fmt", 2)} for c in corpus() if "S" in c]
+    t1 = __import__("time").time()
     do_sg(ck, drv, cs, stats)
+    phase["sg"] = round(__import__("time").time() - t1, 1)
 
     # ---- D: the dict -> array layer directly
     nd = 3000 if ck.quick else 40000
     cd = [{"stream": "dict", **gen_dict_case(rng)} for _ in range(nd)]
     cd += [{"stream": "dict", **gen_dict_case(rng, mixed=True)} for _ in range(nd // 4)]
+    t1 = __import__("time").time()
     do_dicts(ck, drv, cd, stats)
+    phase["dicts"] = round(__import__("time").time() - t1, 1)
+    ck.extra["phase_s"] = phase
 
     ck.extra["correspondence"] = dict(sorted(stats.items()))
     ck.extra["sg_signatures"] = len(SG_SCHEMAS)
